@@ -37,6 +37,7 @@ from ..facts import holds, canon
 from ..model import walk_own
 from ..resolve import Ctx
 from .. import regexast as rx
+from . import common
 
 CLIENT = 'slimta.smtp.client.Client'
 SERVER = 'slimta.smtp.server.Server'
@@ -97,60 +98,81 @@ def _bytes_literals_of_join(call):
 
 
 # ---------------------------------------------------------------------- X1
+def _sent_commands(e, g):
+    """(node, argument) of every io.send_command(...) in the graph"""
+    return [(n, n.ast.args[0]) for n in g.calls()
+            if e.call_name(n) == 'send_command' and n.ast.args]
+
+
 def x1(e: Engine, rep: Report):
-    for meth, verb, patname in (('mailfrom', b'MAIL', 'from_pattern'),
-                                ('rcptto', b'RCPT', 'to_pattern')):
+    for meth, verb in (('mailfrom', b'MAIL'), ('rcptto', b'RCPT')):
         ctx = e.method_ctx(CLIENT, meth)
         where = ctx.func.qname
         rep.functions.add(where)
-        joins = [x for x in walk_own(ctx.func.node)
-                 if _bytes_literals_of_join(x)]
-        cmd = None
-        for j in joins:
-            el = _bytes_literals_of_join(j)
-            if el and isinstance(el[0], ast.Constant) and \
-                    isinstance(el[0].value, bytes) and \
-                    el[0].value.upper().startswith(verb + b' '):
-                cmd = (j, el)
-        if cmd is None:
-            rep.error('anchor vanished: the %s command line built in '
-                      'Client.%s' % (verb.decode(), meth))
+        g = e.build(ctx, raises=lambda b, n, r: set(),
+                    inline=e.inline_same_self(deny=['_flush_pipeline']),
+                    max_depth=3)
+        shape = None
+        site = None
+        for n, arg in _sent_commands(e, g):
+            sh = common.bytes_shape(g, arg, n.frame)
+            if sh and sh[0][0] == 'lit' and isinstance(sh[0][1], bytes) and \
+                    sh[0][1].upper().startswith(verb + b' '):
+                shape, site = sh, n
+        if shape is None or len(shape) < 3 or shape[1][0] != 'opaque' or \
+                shape[2][0] != 'lit':
+            rep.error('cannot read the %s command line Client.%s sends'
+                      % (verb.decode(), meth))
             continue
-        j, el = cmd
-        head = el[0].value[len(verb) + 1:]        # e.g. b'FROM:<'
-        tail = el[-1]
-        pat = rx.module_pattern(e, 'slimta.smtp.server', patname)
-        if pat is None:
-            rep.error('anchor vanished: slimta.smtp.server.' + patname)
-            continue
-        rep.evaluations += 1
-        ends = rx.match_ends(rx.parse(pat[0], pat[1]), head, pat[1])
-        rep.check(len(head) in ends, 'X1', where,
-                  'server pattern accepts the client\'s %r' % head,
-                  'the client writes %r after the verb, which %s (%r) does '
-                  'not match up to the opening bracket: the server answers '
-                  '501 to every %s of its own relay client'
-                  % (head, patname, pat[0], verb.decode()),
-                  loc=ctx.func.loc(j), reason='%s matches the literal in '
-                  'full' % patname)
-        # the closing delimiter
+        head = shape[0][1][len(verb) + 1:]        # e.g. b'FROM:<'
+        tail = shape[2][1]
+        # the server side: the pattern(s) _command_<VERB> matches its
+        # argument with, and the delimiter it scans for
         sctx = e.method_ctx(SERVER, '_command_' + verb.decode())
-        needles = [x.args[1].value for x in walk_own(sctx.func.node)
-                   if isinstance(x, ast.Call) and
-                   ast.unparse(x.func).endswith('find_outside_quotes') and
-                   len(x.args) >= 2 and isinstance(x.args[1], ast.Constant)]
-        rep.evaluations += 1
+        sg = e.build(sctx, raises=lambda b, n, r: set(),
+                     inline=e.inline_same_self(
+                         deny=['_call_custom_handler', '_gather_params',
+                               '_check_close_code']), max_depth=3)
         rep.functions.add(sctx.func.qname)
-        ok = isinstance(tail, ast.Constant) and needles and \
-            all(nd == tail.value for nd in needles)
-        rep.check(bool(ok), 'X1', where,
-                  'closing delimiter %s is the one the server scans for'
-                  % ast.unparse(tail),
-                  'the client closes the address with %s, the server looks '
+        pats, needles = [], []
+        for n in sg.calls():
+            f = n.ast.func
+            if isinstance(f, ast.Attribute) and f.attr == 'match' and \
+                    n.ast.args:
+                p0, _ = common.origin(sg, f.value, n.frame)
+                if isinstance(p0, ast.Name):
+                    got = rx.module_pattern(e, 'slimta.smtp.server', p0.id)
+                    if got is not None:
+                        pats.append((p0.id, got))
+            if e.call_name(n) == 'find_outside_quotes' and \
+                    len(n.ast.args) >= 2:
+                nd, _ = common.origin(sg, n.ast.args[1], n.frame)
+                if isinstance(nd, ast.Constant):
+                    needles.append(nd.value)
+        if not pats or not needles:
+            rep.error('cannot read how Server._command_%s takes the path '
+                      'out of its argument' % verb.decode())
+            continue
+        for pname, pat in pats:
+            rep.evaluations += 1
+            ends = rx.match_ends(rx.parse(pat[0], pat[1]), head, pat[1])
+            rep.check(len(head) in ends, 'X1', where,
+                      'server pattern accepts the client\'s %r' % head,
+                      'the client writes %r after the verb, which %s (%r) '
+                      'does not match up to the opening bracket: the '
+                      'server answers 501 to every %s of its own relay '
+                      'client' % (head, pname, pat[0], verb.decode()),
+                      loc=site.loc(), reason='%s matches the literal in '
+                      'full' % pname)
+        rep.evaluations += 1
+        ok = all(tail.startswith(nd) and len(nd) > 0 for nd in needles)
+        rep.check(ok, 'X1', where,
+                  'closing delimiter %r is the one the server scans for'
+                  % tail[:1],
+                  'the client closes the address with %r, the server looks '
                   'for %s outside quotes: the address is cut in the wrong '
-                  'place or the command refused' % (ast.unparse(tail),
-                                                    needles),
-                  loc=ctx.func.loc(j), reason='same literal on both sides')
+                  'place or the command refused' % (tail, needles),
+                  loc=site.loc(), reason='same literal on both sides')
 
 
 # ---------------------------------------------------------------------- X2
@@ -183,11 +205,23 @@ def x2(e: Engine, rep: Report):
         return
     xtext_out = (set(range(256)) - xsets[0]) | set(b'+0123456789ABCDEF')
     n = 0
-    for node in g.of_kind('stmt'):
-        a = node.ast
-        if not (isinstance(a, ast.AugAssign) and isinstance(a.op, ast.Add)):
-            continue
-        lits = [x for x in ast.walk(a.value) if isinstance(x, ast.Constant)
+    # a parameter is added by `cmd += b' KEY=' + value` or by appending
+    # b'KEY=' + value to a list that is joined with blanks
+    blank_join = any(
+        isinstance(x, ast.Call) and isinstance(x.func, ast.Attribute) and
+        x.func.attr == 'join' and isinstance(x.func.value, ast.Constant) and
+        x.func.value.value == b' ' for x in walk_own(ctx.func.node))
+    sites = []
+    for node in g.nodes:
+        if node.kind == 'stmt' and isinstance(node.ast, ast.AugAssign) and \
+                isinstance(node.ast.op, ast.Add):
+            sites.append((node, node.ast.value, False))
+        elif node.kind == 'call' and e.call_name(node) == 'append' and \
+                node.ast.args:
+            sites.append((node, node.ast.args[0], blank_join))
+    for node, val, sep_by_join in sites:
+        a = ast.Expr(value=val)
+        lits = [x for x in ast.walk(val) if isinstance(x, ast.Constant)
                 and isinstance(x.value, bytes) and x.value.endswith(b'=')]
         if not lits:
             continue
@@ -195,8 +229,9 @@ def x2(e: Engine, rep: Report):
         lit = lits[0].value                       # b' SIZE='
         key = lit.strip()[:-1]
         rep.evaluations += 1
-        ends = rx.match_ends(rx.parse(kw[0], kw[1]), lit[1:-1], kw[1])
-        rep.check(lit.startswith(b' ') and len(key) in ends, 'X2', where,
+        ends = rx.match_ends(rx.parse(kw[0], kw[1]), key, kw[1])
+        rep.check((lit.startswith(b' ') or sep_by_join) and
+                  len(key) in ends, 'X2', where,
                   'parameter keyword %r is one the server reads whole' % key,
                   'the client writes %r; the server\'s parameter pattern '
                   'does not match the keyword in full after a blank: the '
@@ -462,10 +497,13 @@ def x4(e: Engine, rep: Report):
     # the reply header
     rctx = e.method_ctx(HTTP_CLIENT, '_parse_smtp_reply_header')
     rep.functions.add(rctx.func.qname)
+    rparams = set(rctx.func.params)
     read = [x.args[0].value for x in walk_own(rctx.func.node)
             if isinstance(x, ast.Call) and isinstance(x.func, ast.Attribute)
-            and x.func.attr in ('getheader', 'get') and x.args and
-            isinstance(x.args[0], ast.Constant)]
+            and x.args and isinstance(x.args[0], ast.Constant) and (
+                x.func.attr == 'getheader' or (
+                    x.func.attr == 'get' and 'header' in ast.unparse(
+                        x.func.value).lower()))]
     bfn = e.p.functions.get('slimta.edge.wsgi._build_http_response')
     wrote, keys = [], set()
     if bfn is not None:
@@ -500,6 +538,14 @@ def x4(e: Engine, rep: Report):
                 isinstance(x.comparators[0].value, str) and \
                 'group' in ast.unparse(x.left):
             names.add(x.comparators[0].value)
+        # ... or looked up in a table built from the parsed parameters
+        if isinstance(x, ast.Call) and isinstance(x.func, ast.Attribute) \
+                and x.func.attr == 'get' and x.args and \
+                isinstance(x.args[0], ast.Constant) and \
+                isinstance(x.args[0].value, str) and \
+                isinstance(x.func.value, ast.Name) and \
+                x.func.value.id not in rparams:
+            names.add(x.args[0].value)
     rep.evaluations += 1
     rep.check(bool(names) and names <= keys, 'X4', rctx.func.qname,
               'reply parameters read by the relay are written by the edge',
